@@ -196,3 +196,62 @@ Proof.
     rewrite (IH es1 (k + 1) es' Hnd' He w).
     symmetry. apply (remove_mid_preserves_conn es es1 r k rs E1 Hr).
 Qed.
+
+(* ---------------------------------------------------------------- merge_modules, one boundary *)
+Theorem remove_mb_preserves_conn : forall es m k es',
+  remove_mb es m k = MbOk es' ->
+  forall w, In w (map wire_of es') <-> conn_mb es m w.
+Proof.
+  intros es m k es' H w. unfold remove_mb in H.
+  destruct (existsb (fun i => N.eqb (e_src i) m) (ins es m)) eqn:Hself; [discriminate|].
+  destruct (_ || _); [discriminate|]. destruct (negb _); [discriminate|].
+  injection H as <-. rewrite map_app, in_app_iff. unfold conn_mb. split.
+  - intros [Hw|Hw].
+    + left. apply in_map_iff in Hw. destruct Hw as (e & Hwe & He).
+      unfold others in He. apply filter_In in He. destruct He as [He Hc].
+      apply andb_true_iff in Hc. destruct Hc as [H1 H2].
+      apply negb_true_iff in H1. apply negb_true_iff in H2. apply N.eqb_neq in H1. apply N.eqb_neq in H2.
+      exists e. auto.
+    + right. apply in_map_iff in Hw. destruct Hw as (e & Hwe & He).
+      apply in_flat_map in He. destruct He as (i & Hi & He).
+      apply in_map_iff in He. destruct He as (o & Heo & Ho).
+      apply filter_In in Ho. destruct Ho as [Ho Hp].
+      unfold ins in Hi. apply filter_In in Hi. destruct Hi as [Hi Hd]. apply N.eqb_eq in Hd.
+      unfold outs in Ho. apply filter_In in Ho. destruct Ho as [Ho Hs]. apply N.eqb_eq in Hs.
+      exists i, o. repeat split; auto. subst e. unfold wire_of in Hwe. simpl in Hwe. congruence.
+  - intros [(e & He & Hs & Hd & Hw)|(i & o & Hi & Ho & Hd & Hs & Hp & Hw)].
+    + left. apply in_map_iff. exists e. split; [exact Hw|]. unfold others. apply filter_In. split; [exact He|].
+      apply andb_true_iff. split; apply negb_true_iff; apply N.eqb_neq; assumption.
+    + right. apply in_map_iff.
+      exists (mkEdge k (e_src i) (e_dst o) (e_sport i) (e_dport o)). split; [subst w; reflexivity|].
+      apply in_flat_map. exists i. split.
+      * unfold ins. apply filter_In. split; [exact Hi|apply N.eqb_eq; exact Hd].
+      * apply in_map_iff. exists o. split; [reflexivity|]. apply filter_In. split; [|exact Hp].
+        unfold outs. apply filter_In. split; [exact Ho|apply N.eqb_eq; exact Hs].
+Qed.
+
+(* the joined wires never touch the boundary: after the removal no edge mentions m *)
+Lemma remove_mb_no_m : forall es m k es', remove_mb es m k = MbOk es' ->
+  forall e, In e es' -> e_src e <> m /\ e_dst e <> m.
+Proof.
+  intros es m k es' H e He. unfold remove_mb in H.
+  destruct (existsb (fun i => N.eqb (e_src i) m) (ins es m)) eqn:Hself; [discriminate|].
+  destruct (_ || _); [discriminate|]. destruct (negb _); [discriminate|].
+  injection H as <-. apply in_app_or in He. destruct He as [He|He].
+  - unfold others in He. apply filter_In in He. destruct He as [_ Hc].
+    apply andb_true_iff in Hc. destruct Hc as [H1 H2].
+    apply negb_true_iff in H1. apply negb_true_iff in H2. apply N.eqb_neq in H1. apply N.eqb_neq in H2. auto.
+  - apply in_flat_map in He. destruct He as (i & Hi & He).
+    apply in_map_iff in He. destruct He as (o & <- & Ho). simpl.
+    apply filter_In in Ho. destruct Ho as [Ho _].
+    split.
+    + intro E. assert (existsb (fun i => N.eqb (e_src i) m) (ins es m) = true).
+      { apply existsb_exists. exists i. split; [exact Hi|apply N.eqb_eq; exact E]. }
+      congruence.
+    + intro E. (* then o is also an in-edge of m whose source is m: a self loop *)
+      unfold outs in Ho. apply filter_In in Ho. destruct Ho as [Ho Hs]. apply N.eqb_eq in Hs.
+      assert (existsb (fun i => N.eqb (e_src i) m) (ins es m) = true).
+      { apply existsb_exists. exists o. split; [|apply N.eqb_eq; exact Hs].
+        unfold ins. apply filter_In. split; [exact Ho|apply N.eqb_eq; exact E]. }
+      congruence.
+Qed.
